@@ -53,6 +53,22 @@ pub fn run(ctx: &Ctx) -> i32 {
             ents.push(Ent::Link { name: "LinkedFile.sol".into(), target: "../shared/Single.sol".into() });
             acc.cov("trees-with-symlinks");
         }
+        if rng.chance(1, 4) {
+            // sibling directories whose names are prefixes of one another, one of them holding a link to the other
+            let stem = rng.ps(&["a", "lib", "src", "v1", "x"]).to_string();
+            let longer = format!("{}{}", stem, rng.ps(&["b", "2", "-old", ".bak", "s", "_", "0"]));
+            let (holder, target) = if rng.chance(1, 2) { (longer.clone(), stem.clone()) } else { (stem.clone(), longer.clone()) };
+            let taken = |n: &str| ents.iter().any(|e| match e {
+                Ent::File { name, .. } | Ent::Dir { name, .. } | Ent::Link { name, .. } | Ent::Hard { name, .. } => name == n,
+            });
+            if !taken(&holder) && !taken(&target) {
+                let f1 = Ent::File { name: format!("P{}.sol", rng.below(50)), bytes: rng.pick(&pool.progs).1.clone().into_bytes() };
+                let f2 = Ent::File { name: format!("Q{}.sol", rng.below(50)), bytes: rng.pick(&pool.progs).1.clone().into_bytes() };
+                ents.push(Ent::Dir { name: target.clone(), kids: vec![f1] });
+                ents.push(Ent::Dir { name: holder, kids: vec![f2, Ent::Link { name: "ln".into(), target: format!("../{}", target) }] });
+                acc.cov("trees-with-links-between-prefix-named-siblings");
+            }
+        }
         build(&root, &ents);
         shapes(&root, 0, acc);
         let all = all_dets();
@@ -102,7 +118,28 @@ pub fn run(ctx: &Ctx) -> i32 {
             let mut changed = 0;
             for (n, is_dir) in listing(&root) {
                 if !is_dir && n.ends_with(".sol") && !n.starts_with("Linked") && rng.chance(1, 2) {
-                    let _ = std::fs::write(format!("{}/{}", root, n), rng.pick(&pool.progs).1.as_bytes());
+                    let path = format!("{}/{}", root, n);
+                    let md = std::fs::metadata(&path).ok();
+                    let mut text = rng.pick(&pool.progs).1.clone();
+                    let mut stealthy = false;
+                    if let Some(md) = &md {
+                        // half of the time the way a restore tool rewrites a file: same length (padded with blanks), same inode, time stamps put back
+                        if rng.chance(1, 2) && text.len() as u64 <= md.len() && md.len() < (1 << 20) {
+                            while (text.len() as u64) < md.len() {
+                                text.push(if text.len() % 61 == 0 { '\n' } else { ' ' });
+                            }
+                            stealthy = true;
+                        }
+                    }
+                    let _ = std::fs::write(&path, text.as_bytes());
+                    if stealthy {
+                        if let (Some(md), Ok(f)) = (&md, std::fs::OpenOptions::new().write(true).open(&path)) {
+                            if let (Ok(m), Ok(a)) = (md.modified(), md.accessed()) {
+                                let _ = f.set_times(std::fs::FileTimes::new().set_modified(m).set_accessed(a));
+                                acc.cov("rewrite:same-length-same-inode-time-stamps-restored");
+                            }
+                        }
+                    }
                     changed += 1;
                 }
             }
